@@ -100,7 +100,7 @@ CHECKS["C10"] = dict(
     assumptions=[],
     harnesses=[
         dict(pkg="server", name="C10_refuse", bound="state with <=2 holders and <=1 queued request built as leader, then role in {init, follower, sync, config, vote}; one LOCK/UNLOCK with symbolic terms (core profile) without the from-aof flag", flags=["-witness", "50"], reach=["end"]),
-        dict(pkg="server", name="C10_defer", bound="one replicated hold (E=3 s) on a node in each non-leader state {init, follower, sync, config, vote}, clock advanced 10 / 200 / 303 s through the real sweeps", flags=["-witness", "1"], reach=["end", "kept"]),
+        dict(pkg="server", name="C10_defer", bound="1..3 replicated holds (E=3 s; one on an exclusive key or 2..3 sharing a key) on a node in each non-leader state {init, follower, sync, config, vote}, clock advanced 10 / 200 / 303 s through the real sweeps", flags=["-witness", "1"], reach=["end", "kept"]),
         dict(pkg="server", name="C10_apply", bound="1..3 from-aof LOCKs (symbolic Count/Rcount/minute/unlimited flags) and an optional from-aof UNLOCK applied on a leader and on a follower", flags=["-witness", "2"], reach=["end"]),
     ],
 )
@@ -288,3 +288,5 @@ _quick("C07", "C07_shared", "two holders of a key of capacity 5, each with its o
 _quick("C18", "C18_anon", "a binary connection that never sent INIT leaves a queued request and closes; another connection announces ANY client id (16 symbolic bytes); the later grant must be dropped, not delivered to it; client table empty after close", ["-witness", "1"])
 
 _quick("C18", "C18_reconnect2", "connection 1 (client id X) leaves two queued requests and closes; connection 2 announces X and receives the first grant; connection 2 closes or stays; connection 3 announces X or not; the second grant reaches the connection that now speaks for X (exactly one of two live ones), else is dropped", ["-witness", "4"], reach=["end", "third", "dropped"])
+
+_quick("C10", "C10_demote", "a leader with a holder and a queued request (a client's, or one that came from the stream) is demoted to any non-leader state; the stream then releases the holder: the client's queued request is not granted by the demoted node, the stream's is applied", ["-witness", "2"], reach=["end", "client-waiter", "stream-waiter"])
